@@ -16,3 +16,12 @@ Lemma assign_right_assoc : gen_assign_value_parser = "assignment".
 Proof. vm_compute. reflexivity. Qed.
 Lemma suffixes_is_source : gen_suffix_openers = map tkind_name [TLEFT_PAREN; TLEFT_BRACKET; TDOT].
 Proof. vm_compute. reflexivity. Qed.
+
+(** the *published* ladder (grammer.txt) is the model's ladder: same levels, same operators per level,
+    chained loosest to tightest, prefix operators between [**] and the call/suffix level *)
+Lemma documented_ladder_is_model : doc_ladder_matches gen_doc_ladder ladder = true.
+Proof. vm_compute. reflexivity. Qed.
+Lemma documented_unary_is_model :
+  gen_doc_unary = ["!"; "-"; "~"; "->call"] /\ all_some (map op_spelling ["!"; "-"; "~"]) = Some [TBANG; TMINUS; TNOT]
+  /\ same_kinds [TBANG; TMINUS; TNOT] unary_ops = true.
+Proof. vm_compute. repeat split; reflexivity. Qed.
